@@ -279,10 +279,10 @@ Proof. unfold Inv, init, keys_nodup; cbn. repeat split; try constructor; lia. Qe
 
 Lemma Inv_step s o : Inv s -> Inv (fst (step s o)).
 Proof.
-  intros (Hh & Hs & Gh & Gs). destruct o as [b| |ok|ks mn mx|ks|k| |]; cbn [step].
+  intros (Hh & Hs & Gh & Gs). unfold Inv. destruct o as [b| |ok|ks mn mx|ks|k| |]; cbn [step].
   - unfold write_multi. destruct (over_limit s b); [cbn; repeat split; assumption|].
     destruct (write_loop b (hot s) (size s + batch_size b) false) as [[st sz] werr] eqn:W.
-    apply write_loop_gap in W as [Wg Wn]. cbn [fst hot snap size snapsize].
+    apply write_loop_gap in W as [Wg Wn]. cbn.
     repeat split; [tauto|assumption|lia|assumption].
   - unfold do_snapshot. destruct (snapshotting s); [cbn; repeat split; assumption|].
     destruct (0 <? snapsize s) eqn:E; cbn; repeat split; try assumption.
@@ -339,10 +339,10 @@ Fixpoint reads_remove_nothing (s : state) (h : list op) : Prop :=
 
 Lemma Tight_step s o : Tight s -> read_removes_nothing s o -> Tight (fst (step s o)).
 Proof.
-  intros (Hh & Hs & Gh & Gs) R. destruct o as [b| |ok|ks mn mx|ks|k| |]; cbn [step].
+  intros (Hh & Hs & Gh & Gs) R. unfold Tight. destruct o as [b| |ok|ks mn mx|ks|k| |]; cbn [step].
   - unfold write_multi. destruct (over_limit s b); [cbn; repeat split; assumption|].
     destruct (write_loop b (hot s) (size s + batch_size b) false) as [[st sz] werr] eqn:W.
-    apply write_loop_gap in W as [Wg Wn]. cbn [fst hot snap size snapsize].
+    apply write_loop_gap in W as [Wg Wn]. cbn.
     repeat split; [tauto|assumption|lia|assumption].
   - unfold do_snapshot. destruct (snapshotting s); [cbn; repeat split; assumption|].
     destruct (0 <? snapsize s) eqn:E; cbn; repeat split; try assumption.
@@ -396,3 +396,216 @@ Lemma snapconf_witness :
   snd (step s (OWrite [(kA, [i2])])) = ROk /\
   snd (step (fst (step s (OWrite [(kA, [i2])]))) (OValues kA)) = RVals [f1; i2].
 Proof. vm_compute. repeat split; reflexivity. Qed.
+
+(** * WriteMulti handles every key of the batch independently (type conflicts are local) *)
+Fixpoint assoc (k : key) (b : batch) : option (list point) :=
+  match b with
+  | [] => None
+  | (k', vs) :: r => if key_eqb k k' then Some vs else assoc k r
+  end.
+
+Definition is_none {A} (o : option A) : bool := match o with None => true | Some _ => false end.
+
+(** effect of one batch entry on c.size after the optimistic [+ batch_size]: a rejected
+    entry is subtracted again, an accepted one adds [len key] iff it created the key *)
+Definition key_delta (st : store) (kv : key * list point) : Z :=
+  match key_write (find_e (fst kv) st) (snd kv) with
+  | Some _ => if is_none (find_e (fst kv) st) then klen (fst kv) else 0
+  | None => - vals_size (snd kv)
+  end.
+Fixpoint delta (st : store) (b : batch) : Z :=
+  match b with [] => 0 | kv :: r => key_delta st kv + delta st r end.
+Definition rejected (st : store) (kv : key * list point) : bool :=
+  is_none (key_write (find_e (fst kv) st) (snd kv)).
+
+(** bytes charged for the batch: accepted entries only, plus the length of created keys *)
+Fixpoint accepted_bytes (st : store) (b : batch) : Z :=
+  match b with
+  | [] => 0
+  | kv :: r =>
+      (if rejected st kv then 0
+       else vals_size (snd kv) + (if is_none (find_e (fst kv) st) then klen (fst kv) else 0))
+      + accepted_bytes st r
+  end.
+
+Lemma batch_delta_accepted st b : batch_size b + delta st b = accepted_bytes st b.
+Proof.
+  induction b as [|[k vs] r IH]; cbn [batch_size delta accepted_bytes]; [reflexivity|].
+  unfold key_delta, rejected. cbn [fst snd].
+  destruct (key_write (find_e k st) vs); cbn [is_none]; lia.
+Qed.
+
+Lemma delta_ext st st' b :
+  (forall k, In k (map fst b) -> find_e k st' = find_e k st) -> delta st' b = delta st b.
+Proof.
+  induction b as [|[k vs] r IH]; intro H; cbn [delta]; [reflexivity|].
+  rewrite IH by (intros k' Hk; apply H; right; exact Hk).
+  unfold key_delta. cbn [fst snd]. rewrite (H k) by (left; reflexivity). reflexivity.
+Qed.
+
+Lemma rejected_ext st st' b :
+  (forall k, In k (map fst b) -> find_e k st' = find_e k st) ->
+  existsb (rejected st') b = existsb (rejected st) b.
+Proof.
+  induction b as [|[k vs] r IH]; intro H; cbn [existsb]; [reflexivity|].
+  rewrite IH by (intros k' Hk; apply H; right; exact Hk).
+  unfold rejected. cbn [fst snd]. rewrite (H k) by (left; reflexivity). reflexivity.
+Qed.
+
+Lemma assoc_in k b vs : assoc k b = Some vs -> In k (map fst b).
+Proof.
+  induction b as [|[k' vs'] r IH]; cbn; [discriminate|].
+  destruct (key_eqb k k') eqn:E; intro H.
+  - apply key_eqb_eq in E. left. congruence.
+  - right. apply IH. exact H.
+Qed.
+
+Lemma notin_assoc_none k b : assoc k b = None <-> ~ In k (map fst b).
+Proof.
+  induction b as [|[k' vs'] r IH]; cbn; [tauto|].
+  destruct (key_eqb k k') eqn:E.
+  - apply key_eqb_eq in E. subst. split; [discriminate|tauto].
+  - rewrite IH. assert (k' <> k) by (intro; subst; rewrite key_eqb_refl in E; discriminate). tauto.
+Qed.
+
+Definition key_result (st : store) (k : key) (vs : list point) : option entry :=
+  match key_write (find_e k st) vs with Some e' => Some e' | None => find_e k st end.
+
+Lemma write_loop_spec b : forall st sz werr st' sz' werr',
+  NoDup (map fst b) ->
+  write_loop b st sz werr = (st', sz', werr') ->
+  (forall k, find_e k st' =
+     match assoc k b with None => find_e k st | Some vs => key_result st k vs end)
+  /\ sz' = sz + delta st b
+  /\ werr' = werr || existsb (rejected st) b.
+Proof.
+  induction b as [|[k0 vs0] r IH]; intros st sz werr st' sz' werr' Hnd H.
+  - cbn in H. inversion H; subst. cbn. repeat split; [lia|]. rewrite orb_false_r. reflexivity.
+  - cbn [map fst] in Hnd. inversion Hnd as [|? ? Hnotin Hnd']; subst.
+    cbn [write_loop] in H. unfold write_key in H.
+    cbn [delta existsb assoc]. unfold key_delta, rejected at 1. cbn [fst snd].
+    destruct (key_write (find_e k0 st) vs0) as [e'|] eqn:KW.
+    + (* accepted *)
+      apply IH in H as (Hf & Hs & Hw); [|assumption].
+      assert (Hext : forall k, In k (map fst r) -> find_e k (upd_e k0 e' st) = find_e k st).
+      { intros k Hk. apply find_upd_other. intro; subst. contradiction. }
+      rewrite (delta_ext _ _ _ Hext) in Hs. rewrite (rejected_ext _ _ _ Hext) in Hw.
+      split; [|split].
+      * intro k. rewrite Hf. destruct (key_eqb k k0) eqn:E.
+        -- apply key_eqb_eq in E. subst k0.
+           rewrite (proj2 (notin_assoc_none k r) Hnotin).
+           rewrite find_upd_same. unfold key_result. rewrite KW. reflexivity.
+        -- assert (k <> k0) by (intro; subst; rewrite key_eqb_refl in E; discriminate).
+           destruct (assoc k r) as [vs|] eqn:A.
+           ++ unfold key_result. rewrite find_upd_other by assumption. reflexivity.
+           ++ apply find_upd_other. assumption.
+      * cbn [is_none]. destruct (find_e k0 st); cbn [is_none] in *; lia.
+      * cbn [is_none]. rewrite Hw. reflexivity.
+    + (* rejected: store untouched *)
+      apply IH in H as (Hf & Hs & Hw); [|assumption].
+      split; [|split].
+      * intro k. rewrite Hf. destruct (key_eqb k k0) eqn:E.
+        -- apply key_eqb_eq in E. subst k0.
+           rewrite (proj2 (notin_assoc_none k r) Hnotin).
+           unfold key_result. rewrite KW. reflexivity.
+        -- reflexivity.
+      * lia.
+      * cbn [is_none]. rewrite Hw. rewrite orb_true_r. destruct werr; reflexivity.
+Qed.
+
+Lemma write_multi_spec s b :
+  over_limit s b = false -> NoDup (map fst b) ->
+  let s' := fst (write_multi b s) in
+  (forall k, find_e k (hot s') =
+     match assoc k b with None => find_e k (hot s) | Some vs => key_result (hot s) k vs end)
+  /\ size s' = size s + accepted_bytes (hot s) b
+  /\ snap s' = snap s /\ snapsize s' = snapsize s /\ maxsize s' = maxsize s
+  /\ snapshotting s' = snapshotting s
+  /\ snd (write_multi b s) = if existsb (rejected (hot s)) b then RConflict else ROk.
+Proof.
+  intros Hl Hnd. unfold write_multi. rewrite Hl.
+  destruct (write_loop b (hot s) (size s + batch_size b) false) as [[st sz] werr] eqn:W.
+  apply write_loop_spec in W as (Hf & Hs & Hw); [|assumption]. cbn.
+  repeat split; try assumption.
+  - rewrite Hs, <- batch_delta_accepted. lia.
+  - rewrite Hw. reflexivity.
+Qed.
+
+(** exactly when a batch entry is rejected (mirror of entry.add / newEntryValues) *)
+Lemma rejected_iff st k vs :
+  rejected st (k, vs) = true <->
+  match find_e k st with
+  | Some e => vs <> [] /\ evtype e <> 0%N /\ all_type (evtype e) vs = false
+  | None => exists p r, vs = p :: r /\ all_type (ptype p) vs = false
+  end.
+Proof.
+  unfold rejected, key_write. cbn [fst snd]. destruct (find_e k st) as [e|].
+  - unfold entry_add. destruct vs as [|p r]; cbn [is_none].
+    + split; [discriminate|]. intros [H _]. congruence.
+    + destruct (N.eqb (evtype e) 0) eqn:E0; cbn [negb andb].
+      * apply N.eqb_eq in E0. destruct (evals e); cbn [is_none]; split; try discriminate; intros (_ & H & _); congruence.
+      * apply N.eqb_neq in E0. destruct (all_type (evtype e) (p :: r)) eqn:A; cbn [negb].
+        -- destruct (evals e); cbn [is_none]; split; try discriminate; intros (_ & _ & H); discriminate.
+        -- cbn [is_none]. split; [|reflexivity]. intros _. repeat split; [discriminate|assumption].
+  - unfold new_entry. destruct vs as [|p r]; cbn [is_none].
+    + split; [discriminate|]. intros (p & r & H & _). discriminate.
+    + destruct (all_type (ptype p) (p :: r)) eqn:A; cbn [is_none].
+      * split; [discriminate|]. intros (p' & r' & H & H2). inversion H; subst. congruence.
+      * split; [|reflexivity]. intros _. exists p, r. split; [reflexivity|assumption].
+Qed.
+
+(** * The iteration order over the batch (a Go map: random) is irrelevant *)
+From Coq Require Import Permutation.
+
+Lemma batch_size_perm b b' : Permutation b b' -> batch_size b = batch_size b'.
+Proof.
+  induction 1 as [|[k vs] l l' _ IH|[k1 v1] [k2 v2] l|l1 l2 l3 _ IH1 _ IH2]; cbn [batch_size]; lia.
+Qed.
+Lemma accepted_bytes_perm st b b' : Permutation b b' -> accepted_bytes st b = accepted_bytes st b'.
+Proof.
+  induction 1 as [|x l l' _ IH|x y l|l1 l2 l3 _ IH1 _ IH2]; cbn [accepted_bytes]; lia.
+Qed.
+Lemma existsb_perm {A} (f : A -> bool) b b' : Permutation b b' -> existsb f b = existsb f b'.
+Proof.
+  induction 1 as [|x l l' _ IH|x y l|l1 l2 l3 _ IH1 _ IH2]; cbn [existsb].
+  - reflexivity.
+  - rewrite IH. reflexivity.
+  - destruct (f x), (f y); reflexivity.
+  - congruence.
+Qed.
+Lemma assoc_perm k b b' : Permutation b b' -> NoDup (map fst b) -> assoc k b = assoc k b'.
+Proof.
+  induction 1 as [|[k0 v0] l l' _ IH|[k1 v1] [k2 v2] l|l1 l2 l3 H12 IH1 H23 IH2]; intro Hnd.
+  - reflexivity.
+  - cbn [assoc]. cbn in Hnd. inversion Hnd; subst. rewrite IH by assumption. reflexivity.
+  - cbn [assoc]. cbn in Hnd. inversion Hnd as [|? ? Hn _]; subst.
+    destruct (key_eqb k k1) eqn:E1; destruct (key_eqb k k2) eqn:E2; try reflexivity.
+    apply key_eqb_eq in E1, E2. subst. exfalso. apply Hn. left. reflexivity.
+  - rewrite IH1 by assumption. apply IH2.
+    apply (Permutation_NoDup (l := map fst l1)); [apply Permutation_map; exact H12|exact Hnd].
+Qed.
+
+Lemma write_multi_order_irrelevant s b b' :
+  Permutation b b' -> NoDup (map fst b) ->
+  let s1 := fst (write_multi b s) in
+  let s2 := fst (write_multi b' s) in
+  snd (write_multi b s) = snd (write_multi b' s)
+  /\ (forall k, find_e k (hot s1) = find_e k (hot s2))
+  /\ size s1 = size s2 /\ snap s1 = snap s2 /\ snapsize s1 = snapsize s2
+  /\ maxsize s1 = maxsize s2 /\ snapshotting s1 = snapshotting s2.
+Proof.
+  intros Hp Hnd.
+  assert (Hnd' : NoDup (map fst b')).
+  { apply (Permutation_NoDup (l := map fst b)); [apply Permutation_map; exact Hp|exact Hnd]. }
+  assert (Ho : over_limit s b = over_limit s b').
+  { unfold over_limit. rewrite (batch_size_perm _ _ Hp). reflexivity. }
+  destruct (over_limit s b) eqn:O.
+  - symmetry in Ho. rewrite (write_multi_over _ _ O), (write_multi_over _ _ Ho). cbn. repeat split.
+  - symmetry in Ho.
+    destruct (write_multi_spec s b O Hnd) as (F1 & S1 & A1 & B1 & C1 & D1 & R1).
+    destruct (write_multi_spec s b' Ho Hnd') as (F2 & S2 & A2 & B2 & C2 & D2 & R2).
+    cbn zeta. repeat split; try congruence.
+    + rewrite R1, R2, (existsb_perm _ _ _ Hp). reflexivity.
+    + intro k. rewrite F1, F2, (assoc_perm k _ _ Hp Hnd). reflexivity.
+    + rewrite S1, S2, (accepted_bytes_perm _ _ _ Hp). reflexivity.
+Qed.
